@@ -2,7 +2,7 @@
    specification, passes the checker, and the checker is sound. *)
 From Coq Require Import List Bool Arith String Ascii NArith Lia.
 From Mv Require Import Model.Entry Model.Fs Model.Scan Model.ScanSpec
-     Proof.EntryFacts Proof.ScanFacts Proof.ScanC12 Proof.ScanCount.
+     Proof.EntryFacts Proof.ScanFacts Proof.ScanC12 Proof.ScanCount Proof.ScanUtf8.
 Import ListNotations.
 Open Scope string_scope.
 
@@ -129,20 +129,18 @@ Proof.
                        end.
 Qed.
 
-(* a child whose name carries the temporary prefix is not listed *)
-Lemma temp_not_listed : forall H ign flt cfg rootdev p mask m c out,
-  escape_safe (NDir m c) = true ->
+(* no listed name carries the temporary prefix *)
+Lemma no_temp_key : forall H ign flt cfg rootdev p mask c out,
   describes_kids H ign flt cfg rootdev p mask c out ->
-  forall n y, In (n, y) c -> is_temp n = true -> utf8_valid n = true -> lookup n out = None.
+  forall k e, lookup k out = Some e -> is_temp k = false.
 Proof.
-  intros H ign flt cfg rootdev p mask m c out He Hd n y Hin Ht Vn.
+  intros H ign flt cfg rootdev p mask c out Hd k e El.
   inversion Hd as [p0 mask0 c0 out0 Hs Ha Hb]. subst.
-  destruct (lookup n out) as [e|] eqn:El; [|reflexivity]. exfalso.
   destruct (Ha _ _ El) as [n' [y' [Hin' Hl]]].
   apply lists_entry_key in Hl. destruct Hl as [Ht' Hk].
-  apply out_key_cases in Hk. destruct Hk as [_ [[V ->]|[V N]]].
-  - congruence.
-  - apply (escape_safe_sibling _ _ _ _ _ _ He Hin' Hin V Vn). exact N.
+  apply out_key_cases in Hk. destruct Hk as [_ [[V ->]|[V ->]]].
+  - exact Ht'.
+  - apply escape_not_temp. exact Ht'.
 Qed.
 
 (* every listed key is accounted for by a child without the temporary prefix *)
